@@ -4,6 +4,7 @@ import (
 	"bufio"
 	"context"
 	"encoding/json"
+	"errors"
 	"fmt"
 	"io"
 	"runtime"
@@ -140,6 +141,9 @@ func mkMixed(id, method, tok string) member {
 // the scenario runner
 
 type srvConfig struct {
+	// basectx (racing scenarios only): ServerOptions.NewContext hands out a context derived from one base
+	// context that the scenario may end, with a cause of its own, at any time
+	basectx bool
 	K       int
 	push    bool
 	builtin bool
@@ -198,6 +202,10 @@ type srvRun struct {
 	srv   *jrpc2.Server
 	ch    *fchan
 	chans []*fchan
+
+	base       context.Context
+	baseCancel context.CancelCauseFunc
+	baseEnded  bool
 
 	mu      sync.Mutex
 	gates   map[string]chan gateMsg // by params text
@@ -302,7 +310,12 @@ func (a assigner) Assign(ctx context.Context, method string) jrpc2.Handler {
 
 func newSrvRun(cfg srvConfig, out *bufio.Writer) *srvRun {
 	r := &srvRun{cfg: cfg, log: &logger{out: out}, sc: &sched{on: true}, gates: map[string]chan gateMsg{}, notes: map[string]bool{}, cbctx: map[int]*mctx{}}
-	r.srv = jrpc2.NewServer(assigner{r}, &jrpc2.ServerOptions{Concurrency: cfg.K, AllowPush: cfg.push, DisableBuiltin: !cfg.builtin})
+	opts := &jrpc2.ServerOptions{Concurrency: cfg.K, AllowPush: cfg.push, DisableBuiltin: !cfg.builtin}
+	if cfg.basectx {
+		r.base, r.baseCancel = context.WithCancelCause(context.Background())
+		opts.NewContext = func() context.Context { return r.base }
+	}
+	r.srv = jrpc2.NewServer(assigner{r}, opts)
 	var ms []string
 	for _, m := range cfg.methods {
 		ms = append(ms, hexf([]byte(m)))
@@ -416,6 +429,19 @@ func (r *srvRun) gate(p string, m gateMsg) {
 		r.log.item("env\tgate\t%s\tres\t%s", hexf([]byte(p)), hexf([]byte(m.res)))
 	}
 	g <- m
+	r.settleEnv()
+}
+
+// errBaseCause is the cause the base context of the requests ends with: handlers and waiters must still see and
+// report the context's own error (context.Canceled).
+var errBaseCause = errors.New("draining for maintenance")
+
+// baseCtxEnd ends the base context of all request contexts (ServerOptions.NewContext), as an application that
+// shuts down does: every in-flight and every later request context is then cancelled.
+func (r *srvRun) baseCtxEnd() {
+	r.log.item("env\tbasectx\tend")
+	r.baseEnded = true
+	r.baseCancel(errBaseCause)
 	r.settleEnv()
 }
 
